@@ -4,6 +4,16 @@ import sys, subprocess, os, json, time
 ROOT = os.path.dirname(os.path.dirname(os.path.abspath(__file__)))
 patch = os.path.abspath(sys.argv[1]); props = sys.argv[2:]
 assert subprocess.run(["git", "-C", "/repo", "status", "--porcelain"], capture_output=True, text=True).stdout.strip() == "", "/repo not clean"
+import shutil, tempfile, atexit
+EVBAK = tempfile.mkdtemp(prefix="evbak_")      # evidence files must come from runs on the unchanged tree: save and restore them
+for f in os.listdir(os.path.join(ROOT, "evidence")):
+    if f.endswith(".json"):
+        shutil.copy(os.path.join(ROOT, "evidence", f), EVBAK)
+def _restore():
+    for f in os.listdir(EVBAK):
+        shutil.copy(os.path.join(EVBAK, f), os.path.join(ROOT, "evidence", f))
+    shutil.rmtree(EVBAK, ignore_errors=True)
+atexit.register(_restore)
 subprocess.run(["git", "-C", "/repo", "apply", patch], check=True)
 res = {}
 try:
